@@ -256,7 +256,9 @@ pub fn scripts(a: &Args) -> i32 {
         } else {
             AnyFleet::Async(Arc::new(AsyncFleet::with_options(vec![cfg], opts).unwrap()), rt.clone())
         };
-        out.push(&json!({"ev": "reset", "kind": kind, "max": max, "script": names}));
+        // the two public entry points have their own retry loops: alternate between them
+        let use_message = (idx / shards) % 2 == 1;
+        out.push(&json!({"ev": "reset", "kind": kind, "max": max, "script": names, "api": if use_message { "call_message" } else { "call_json" }}));
         let _ = verif::take();
         verif::gate("fleet_before_attempt");
         let mut remaining: std::collections::VecDeque<&str> = names.iter().copied().collect();
@@ -278,7 +280,8 @@ pub fn scripts(a: &Args) -> i32 {
                     AnyFleet::Blocking(f) => {
                         let f = f.clone();
                         std::thread::spawn(move || {
-                            let r = f.call_json("n1", "/m", Some(&params)).unwrap().into_result();
+                            let r = if use_message { f.call_message("n1", "/m").unwrap().into_result().and_then(|m| m.json_body::<Value>()) }
+                                    else { f.call_json("n1", "/m", Some(&params)).unwrap().into_result() };
                             *result.lock().unwrap() = Some(r);
                             done.store(true, Ordering::SeqCst);
                         })
@@ -286,7 +289,10 @@ pub fn scripts(a: &Args) -> i32 {
                     AnyFleet::Async(f, rt) => {
                         let (f, rt) = (f.clone(), rt.clone());
                         std::thread::spawn(move || {
-                            let r = rt.block_on(async { f.call_json("n1", "/m", Some(&params)).await.unwrap().into_result() });
+                            let r = rt.block_on(async {
+                                if use_message { f.call_message("n1", "/m").await.unwrap().into_result().and_then(|m| m.json_body::<Value>()) }
+                                else { f.call_json("n1", "/m", Some(&params)).await.unwrap().into_result() }
+                            });
                             *result.lock().unwrap() = Some(r);
                             done.store(true, Ordering::SeqCst);
                         })
